@@ -980,6 +980,17 @@ impl GraphDatabase {
     }
 
     pub async fn update_data_model(&mut self, model: &str) -> Result<String> {
+        //a refused (or failed) update must leave the running data model untouched:
+        //the update works in place, so the previous model is kept aside and restored on error
+        let previous = self.data_model.clone();
+        let result = self.apply_data_model(model).await;
+        if result.is_err() {
+            self.data_model = previous;
+        }
+        result
+    }
+
+    async fn apply_data_model(&mut self, model: &str) -> Result<String> {
         let (send, recieve) = oneshot::channel::<Result<Option<String>>>();
 
         //load from database
